@@ -90,9 +90,11 @@ theorem applyMsg_eff {c : Cfg} {b b' : Bal} {al al' : List (Nat × Nat)} {m : Ms
           exact moveBal_eff X a (by omega)
     · split at h
       · cases h
-      · injection h with h; injection h with h1 h2
-        subst h1
-        exact moveBal_eff X a (by omega)
+      · split at h
+        · cases h
+        · injection h with h; injection h with h1 h2
+          subst h1
+          exact moveBal_eff X a (by omega)
   | pull src dst a' amt =>
     unfold applyMsg at h
     simp only at h
@@ -102,9 +104,11 @@ theorem applyMsg_eff {c : Cfg} {b b' : Bal} {al al' : List (Nat × Nat)} {m : Ms
       · cases h
       · split at h
         · cases h
-        · injection h with h; injection h with h1 h2
-          subst h1
-          exact moveBal_eff X a (by omega)
+        · split at h
+          · cases h
+          · injection h with h; injection h with h1 h2
+            subst h1
+            exact moveBal_eff X a (by omega)
 
 theorem applyMsgs_eff {c : Cfg} (X : Addr) (a : Nat) :
     ∀ (msgs : List Msg) (b b' : Bal) (al : List (Nat × Nat)), applyMsgs c b al msgs = .ok b' →
